@@ -27,7 +27,7 @@ import json
 import os
 import sys
 from pathlib import Path
-from typing import Dict, Iterable, List, Optional, Sequence, Set, Tuple
+from typing import Any, Dict, Iterable, List, Optional, Sequence, Set, Tuple
 
 VOCAB = Path(__file__).resolve().parent / "vocabulary.json"
 
@@ -40,6 +40,8 @@ EXTERNAL_SIGS: Dict[str, List[str]] = {
     "irange": ["minimum", "maximum", "inclusive", "reverse"],
     "to_bytes": ["length", "byteorder"],
     "from_bytes": ["bytes", "byteorder"],
+    "open": ["file", "mode", "buffering", "encoding", "errors", "newline", "closefd", "opener"],
+    "enumerate": ["iterable", "start"],
 }
 
 FuncT = (ast.FunctionDef, ast.AsyncFunctionDef)
@@ -432,7 +434,12 @@ class Normaliser:
         n = h.node.name
         if self.known is None or h.key in self.known:
             return False
-        if not n.startswith("_") or (n.startswith("__") and n.endswith("__")):
+        if n.startswith("__") and n.endswith("__"):
+            return False
+        if not n.startswith("_") and n in self.style:
+            # a new public function: inlined at the package's own call sites only when the pinned
+            # tree calls nothing of that name (so every call of the name was written with the
+            # definition); its definition stays, others may call it
             return False
         if h.other_deco:
             return False
@@ -453,6 +460,8 @@ class Normaliser:
     @staticmethod
     def _callee_name(c: ast.Call) -> Optional[str]:
         f = c.func
+        if isinstance(f, ast.Subscript):        # Generic[...](...)
+            f = f.value
         if isinstance(f, ast.Name):
             return f.id
         if isinstance(f, ast.Attribute):
@@ -1180,7 +1189,7 @@ class Normaliser:
                             refs += 1
                         elif isinstance(n, ast.alias) and (n.asname or n.name) == nm:
                             refs += 1
-                if refs == 0 and h.key in self._inlined_keys:
+                if refs == 0 and h.key in self._inlined_keys and nm.startswith("_"):
                     h.holder.remove(h.node)
                     if not h.holder:
                         h.holder.append(ast.Pass(lineno=h.node.lineno, col_offset=h.node.col_offset))
@@ -1207,6 +1216,31 @@ class Normaliser:
                 return same if isinstance(e.ops[0], ast.Is) else not same
             return None
 
+        def boolify(e: ast.expr) -> ast.expr:
+            """in a test only the truth value counts: a conditional expression with a constant
+            arm is a short-circuit operator  (True if c else x  ==  c or x, ...)"""
+            if isinstance(e, ast.UnaryOp) and isinstance(e.op, ast.Not):
+                o = boolify(e.operand)
+                return e if o is e.operand else ast.copy_location(ast.UnaryOp(op=ast.Not(), operand=o), e)
+            if isinstance(e, ast.BoolOp):
+                vs = [boolify(v_) for v_ in e.values]
+                if all(a_ is b_ for a_, b_ in zip(vs, e.values)):
+                    return e
+                return ast.copy_location(ast.BoolOp(op=e.op, values=vs), e)
+            if isinstance(e, ast.IfExp):
+                def is_c(x: ast.expr, val: bool) -> bool:
+                    return isinstance(x, ast.Constant) and x.value is val
+                neg = ast.copy_location(ast.UnaryOp(op=ast.Not(), operand=e.test), e.test)
+                if is_c(e.body, True):
+                    return ast.copy_location(ast.BoolOp(op=ast.Or(), values=[e.test, boolify(e.orelse)]), e)
+                if is_c(e.orelse, False):
+                    return ast.copy_location(ast.BoolOp(op=ast.And(), values=[e.test, boolify(e.body)]), e)
+                if is_c(e.body, False):
+                    return ast.copy_location(ast.BoolOp(op=ast.And(), values=[neg, boolify(e.orelse)]), e)
+                if is_c(e.orelse, True):
+                    return ast.copy_location(ast.BoolOp(op=ast.Or(), values=[neg, boolify(e.body)]), e)
+            return e
+
         def block(stmts: List[ast.stmt]) -> List[ast.stmt]:
             nonlocal changed
             out: List[ast.stmt] = []
@@ -1221,6 +1255,12 @@ class Normaliser:
                 if isinstance(st, ast.Try):
                     for hd in st.handlers:
                         hd.body = block(hd.body)
+                if isinstance(st, (ast.If, ast.While)):
+                    nt = boolify(st.test)
+                    if nt is not st.test:
+                        st.test = nt
+                        changed = True
+                        rep.folded += 1
                 if isinstance(st, ast.If):
                     v = const_of(st.test)
                     if v is not None:
@@ -1346,6 +1386,20 @@ class Normaliser:
         """
         changed = False
         rep = self.report
+        # a function that is a generator in the pinned tree and now returns a generator
+        # expression built from quiet temporaries: ``return (g)`` -> ``yield from (g)``
+        gens_ = self.vocab.get("generators")
+        qn = "%s:%s" % (getattr(fn, "_mod", ""), getattr(fn, "_qual", ""))
+        if gens_ is not None and qn in set(gens_) and not _is_generator(fn) and fn.body and \
+                isinstance(fn.body[-1], ast.Return) and isinstance(fn.body[-1].value, ast.GeneratorExp) and \
+                sum(1 for n in _walk_scope(fn) if isinstance(n, ast.Return)) == 1 and all(
+                    isinstance(b, ast.Assign) and len(b.targets) == 1 and isinstance(b.targets[0], ast.Name) and (
+                        isinstance(b.value, ast.GeneratorExp) or _purity(b.value, set()) < 2)
+                    or (isinstance(b, ast.Expr) and isinstance(b.value, ast.Constant)) for b in fn.body[:-1]):
+            r_ = fn.body[-1]
+            fn.body[-1] = ast.copy_location(ast.Expr(value=ast.copy_location(ast.YieldFrom(value=r_.value), r_)), r_)
+            changed = True
+            rep.shapes += 1
         _renumber(fn)
         stores: Dict[str, int] = {}
         for n in _walk_scope(fn):
@@ -1415,6 +1469,26 @@ class Normaliser:
                         changed = True
                         rep.shapes += 1
                         continue
+                # for x in (E for y in S if C): B   ->   for y in S: if C: x = E; B
+                if isinstance(st, ast.For) and not st.orelse and isinstance(st.iter, ast.GeneratorExp) and \
+                        len(st.iter.generators) == 1 and not st.iter.generators[0].is_async and \
+                        isinstance(st.target, ast.Name) and isinstance(st.iter.generators[0].target, (ast.Name, ast.Tuple)):
+                    g3 = st.iter.generators[0]
+                    ynames = {n_.id for n_ in ast.walk(g3.target) if isinstance(n_, ast.Name)}
+                    others = {n_.id for n_ in ast.walk(fn) if isinstance(n_, ast.Name)
+                              and not _contains(st.iter, n_)} | {a_.arg for a_ in ast.walk(fn) if isinstance(a_, ast.arg)}
+                    inner_scopes = any(isinstance(n_, ScopeT + CompT) for n_ in ast.walk(st.iter.elt)) or any(
+                        isinstance(n_, ScopeT + CompT) for c_ in g3.ifs for n_ in ast.walk(c_))
+                    if not (ynames & others) and not inner_scopes:
+                        bind = ast.copy_location(ast.Assign(targets=[st.target], value=st.iter.elt), st)
+                        body3: List[ast.stmt] = [bind] + list(st.body)
+                        for cond in reversed(g3.ifs):
+                            body3 = [ast.copy_location(ast.If(test=cond, body=body3, orelse=[]), st)]
+                        new_for = ast.copy_location(ast.For(target=g3.target, iter=g3.iter, body=body3, orelse=[]), st)
+                        out.extend(block([new_for]))
+                        changed = True
+                        rep.shapes += 1
+                        continue
                 if isinstance(st, ast.For) and not st.orelse and len(st.body) == 1 and isinstance(st.body[0], ast.Expr):
                     v = st.body[0].value
                     # for t in it: yield t
@@ -1463,6 +1537,58 @@ class Normaliser:
                     changed = True
                     rep.shapes += 1
                     continue
+                # for T in (<literal>, ...): S   -> S once per element; with the body a single
+                # ``if c: ...; break`` (and an optional else) -> an if/elif chain
+                if isinstance(st, ast.For) and isinstance(st.iter, (ast.Tuple, ast.List)) and 0 < len(st.iter.elts) <= 6:
+                    tnames = [n_.id for n_ in ast.walk(st.target) if isinstance(n_, ast.Name)]
+                    flat = isinstance(st.target, ast.Name)
+                    shape_ok = flat or (isinstance(st.target, ast.Tuple) and all(isinstance(e_, ast.Name) for e_ in st.target.elts)
+                                        and all(isinstance(e_, ast.Tuple) and len(e_.elts) == len(st.target.elts)
+                                                for e_ in st.iter.elts))
+                    params_ = {a_.arg for a_ in ast.walk(fn.args) if isinstance(a_, ast.arg)}
+
+                    def lit(e_: ast.AST) -> bool:
+                        if isinstance(e_, ast.Constant):
+                            return True
+                        if isinstance(e_, ast.Tuple):
+                            return all(lit(x_) for x_ in e_.elts)
+                        p__ = attr_path_(e_)
+                        return bool(p__) and p__[0] not in stores and p__[0] not in params_ and \
+                            (len(p__) == 1 or p__[0] not in ("self", "cls"))
+                    outside = [n_ for n_ in ast.walk(fn) if isinstance(n_, ast.Name) and n_.id in tnames
+                               and not _contains(st, n_)]
+                    inner_stores = [n_ for b_ in st.body + st.orelse for n_ in ast.walk(b_)
+                                    if isinstance(n_, ast.Name) and n_.id in tnames and not isinstance(n_.ctx, ast.Load)]
+                    jumps = [n_ for b_ in st.body for n_ in ast.walk(b_) if isinstance(n_, (ast.Break, ast.Continue))]
+                    nested_loops = any(isinstance(n_, (ast.For, ast.While)) for b_ in st.body for n_ in ast.walk(b_))
+                    if shape_ok and tnames and all(lit(e_) for e_ in st.iter.elts) and not outside and not inner_stores \
+                            and len(set(tnames)) == len(tnames) and all(stores.get(t_) == 1 for t_ in tnames) and not nested_loops:
+                        def inst(body_: List[ast.stmt], e_: ast.expr) -> List[ast.stmt]:
+                            mp_ = {tnames[0]: e_} if flat else {t_: x_ for t_, x_ in zip(tnames, e_.elts)}  # type: ignore[attr-defined]
+                            return [_Subst(mp_).visit(copy.deepcopy(b_)) for b_ in body_]
+                        done = False
+                        if not jumps:
+                            seq: List[ast.stmt] = []
+                            for e_ in st.iter.elts:
+                                seq.extend(inst(st.body, e_))
+                            seq.extend(st.orelse)
+                            out.extend(block(seq))
+                            done = True
+                        elif len(st.body) == 1 and isinstance(st.body[0], ast.If) and not st.body[0].orelse and \
+                                st.body[0].body and isinstance(st.body[0].body[-1], ast.Break) and len(jumps) == 1:
+                            tail: List[ast.stmt] = list(st.orelse)
+                            for e_ in reversed(st.iter.elts):
+                                one = inst([st.body[0]], e_)[0]
+                                assert isinstance(one, ast.If)
+                                one.body = one.body[:-1] or [ast.copy_location(ast.Pass(), st)]
+                                one.orelse = tail
+                                tail = [one]
+                            out.extend(block(tail))
+                            done = True
+                        if done:
+                            changed = True
+                            rep.shapes += 1
+                            continue
                 # for _ in range(K): S  with a small literal K and S not using the counter
                 if isinstance(st, ast.For) and not st.orelse and isinstance(st.target, ast.Name) and \
                         isinstance(st.iter, ast.Call) and isinstance(st.iter.func, ast.Name) and st.iter.func.id == "range" \
@@ -1873,6 +1999,14 @@ class Normaliser:
                     tgt, val = st.target.id, st.value
                 if tgt is None or val is None or tgt in params or tgt in escaping or stores.get(tgt) != 1:
                     continue
+                if isinstance(val, ast.GeneratorExp) and not any(
+                        isinstance(n, (ast.Yield, ast.YieldFrom, ast.Await, ast.NamedExpr, ast.Lambda) + CompT)
+                        for n in ast.walk(val) if n is not val):
+                    # a generator expression bound to a local and consumed once: like a call
+                    # (creating it evaluates its first iterable), single use, nothing in between
+                    if self._try_propagate(fn, stmts, i, tgt, val, stable):
+                        return True
+                    continue
                 if isinstance(val, (ast.Lambda,) + CompT):
                     continue
                 if any(isinstance(n, (ast.Yield, ast.YieldFrom, ast.Await, ast.NamedExpr, ast.Lambda) + CompT)
@@ -2010,6 +2144,8 @@ class Normaliser:
 
     def _sig_of(self, mod: str, call: ast.Call) -> Optional[Tuple[str, List[str]]]:
         f = call.func
+        if isinstance(f, ast.Subscript):
+            f = f.value
         nm = self._callee_name(call)
         if nm is None:
             return None
@@ -2033,7 +2169,12 @@ class Normaliser:
                 return None
             sigs = {tuple(a.arg for a in h.node.args.args) for h in hs}
             if len(sigs) != 1:
-                return None
+                # the keywords used at the call select among the methods of that name
+                used = {k.arg for k in call.keywords}
+                hs = [h for h in hs if used and used <= {a.arg for a in h.node.args.args}]
+                sigs = {tuple(a.arg for a in h.node.args.args) for h in hs}
+                if len(sigs) != 1:
+                    return None
             h = hs[0]
             ps = [a.arg for a in h.node.args.args]
             recv = f.value
@@ -2137,8 +2278,19 @@ class Normaliser:
                 return all(literal(x) for x in e.elts)
             if isinstance(e, ast.UnaryOp) and isinstance(e.op, ast.USub):
                 return literal(e.operand)
+            # a member of an imported module or class (CodeBlock_pb2.DecodeMode, IntervalTree.add):
+            # import bindings are never rebound in this package
+            p_ = attr_path_(e)
+            if p_ and len(p_) >= 2 and p_[0] in imported and not counts.get(p_[0]):
+                return True
             return False
         for mod, tree in self.trees.items():
+            imported: Set[str] = set()
+            for st in tree.body:
+                for x in ([st] if not isinstance(st, ast.If) else list(st.body) + list(st.orelse)):
+                    if isinstance(x, (ast.Import, ast.ImportFrom)):
+                        for a in x.names:
+                            imported.add((a.asname or a.name).split(".")[0])
             cands: Dict[str, Tuple[ast.stmt, ast.expr]] = {}
             counts: Dict[str, int] = {}
             for n in ast.walk(tree):
@@ -2163,6 +2315,7 @@ class Normaliser:
                        for t in self.trees.values() for x in ast.walk(t)):
                     continue
                 cands[nm] = (st, val)
+            self._class_constants(mod, tree, literal, counts, imported)
             if not cands:
                 continue
             # names shadowed by a parameter or local somewhere are left alone
@@ -2179,6 +2332,68 @@ class Normaliser:
                 if st in tree.body:
                     tree.body.remove(st)
                 self.report.constants += 1
+
+    def _class_constants(self, mod: str, tree: ast.Module, literal: Any, counts: Dict[str, int],
+                         imported: Set[str]) -> None:
+        """a private class-level name bound once to a literal (constants, tuples, names of imported
+        or module-level classes), not part of the pinned tree's vocabulary, only ever read, and
+        only in this module, is the literal"""
+        known = self.vocab.get("class_attrs")
+        if known is None:
+            return
+        known = set(known)
+        toplevel = {st.name for st in tree.body if isinstance(st, (ast.ClassDef, ast.FunctionDef))}
+
+        def lit2(e: ast.AST) -> bool:
+            if isinstance(e, (ast.Tuple, ast.List)):
+                return all(lit2(x) for x in e.elts)
+            if isinstance(e, ast.Name):
+                return (e.id in toplevel or e.id in imported) and not counts.get(e.id)
+            return literal(e)
+
+        def visit(stmts: List[ast.stmt], q: str) -> None:
+            for st in stmts:
+                if not isinstance(st, ast.ClassDef):
+                    continue
+                visit(st.body, q + st.name + ".")
+                for b in list(st.body):
+                    nm = val = None
+                    if isinstance(b, ast.Assign) and len(b.targets) == 1 and isinstance(b.targets[0], ast.Name):
+                        nm, val = b.targets[0].id, b.value
+                    elif isinstance(b, ast.AnnAssign) and isinstance(b.target, ast.Name) and b.value is not None:
+                        nm, val = b.target.id, b.value
+                    if nm is None or val is None or not nm.startswith("_") or nm.startswith("__"):
+                        continue
+                    if ("%s:%s%s.%s" % (mod, q, st.name, nm)) in known or not lit2(val):
+                        continue
+                    uses: List[ast.Attribute] = []
+                    bad = False
+                    for m2, t2 in self.trees.items():
+                        for n in ast.walk(t2):
+                            if isinstance(n, ast.Attribute) and n.attr == nm:
+                                if not isinstance(n.ctx, ast.Load) or m2 != mod or not attr_path_(n.value):
+                                    bad = True
+                                uses.append(n)
+                            elif isinstance(n, ast.Name) and n.id == nm and n is not (
+                                    b.targets[0] if isinstance(b, ast.Assign) else b.target):
+                                bad = True
+                            elif isinstance(n, ast.Constant) and n.value == nm:
+                                bad = True          # getattr(x, "_NAME") and the like
+                    if bad or not uses:
+                        continue
+                    ids = {id(u) for u in uses}
+
+                    class R(ast.NodeTransformer):
+                        def visit_Attribute(self, node: ast.Attribute) -> ast.AST:
+                            if id(node) in ids:
+                                return ast.copy_location(copy.deepcopy(val), node)
+                            return self.generic_visit(node)
+                    R().visit(tree)
+                    st.body.remove(b)
+                    if not st.body:
+                        st.body.append(ast.copy_location(ast.Pass(), st))
+                    self.report.constants += 1
+        visit(tree.body, "")
 
     def _qualify_all(self) -> None:
         for mod, tree in self.trees.items():
@@ -2206,6 +2421,38 @@ class Normaliser:
                         break
 
     # ------------------------------------------------------------------ driver
+    def plain_assignments(self) -> None:
+        """inside a function the annotation of a local is never evaluated: ``x: T = v`` is
+        ``x = v`` and a bare ``x: T`` is nothing (the annotation stays available to the type
+        resolver as a hint: ``_ann`` on the assignment, ``_local_anns`` on the function)"""
+        for tree in self.trees.values():
+            for fn in [n for n in ast.walk(tree) if isinstance(n, FuncT)]:
+                for holder in [n for n in _walk_scope(fn)] + [fn]:
+                    for fld in ("body", "orelse", "finalbody"):
+                        body = getattr(holder, fld, None)
+                        if not isinstance(body, list):
+                            continue
+                        for st in list(body):
+                            if not isinstance(st, ast.AnnAssign) or not isinstance(st.target, ast.Name):
+                                continue
+                            anns = getattr(fn, "_local_anns", None)
+                            if anns is None:
+                                anns = fn._local_anns = {}  # type: ignore[attr-defined]
+                            anns.setdefault(st.target.id, st.annotation)
+                            if st.value is None:
+                                if len(body) > 1:
+                                    body.remove(st)
+                                else:
+                                    body[body.index(st)] = ast.copy_location(ast.Pass(), st)
+                            else:
+                                new = ast.copy_location(ast.Assign(targets=[st.target], value=st.value, type_comment=None), st)
+                                for a in ("_ord", "_parent"):
+                                    if hasattr(st, a):
+                                        setattr(new, a, getattr(st, a))
+                                new._ann = st.annotation  # type: ignore[attr-defined]
+                                body[body.index(st)] = new
+                            self.report.shapes += 1
+
     def run(self) -> Report:
         self.init_only = self._init_only_attrs()
         for tree in self.trees.values():
@@ -2213,6 +2460,7 @@ class Normaliser:
                 for st in c.body:
                     if isinstance(st, ast.FunctionDef) and "staticmethod" not in _decorators(st):
                         st._is_method = True  # type: ignore[attr-defined]
+        self.plain_assignments()
         self.module_constants()
         self.parameter_names()
         # helpers are brought into normal form before they are inlined (merged guards, no
@@ -2300,6 +2548,8 @@ def gen_vocab(root: Path) -> Dict[str, object]:
     funcs: List[str] = []
     params: Dict[str, List[str]] = {}
     modnames: List[str] = []
+    gens: List[str] = []
+    clsattrs: List[str] = []
     style: Dict[str, int] = {}
     for p in sorted(pkg.glob("*.py")):
         tree = ast.parse(p.read_text())
@@ -2307,9 +2557,16 @@ def gen_vocab(root: Path) -> Dict[str, object]:
         def visit(stmts: Sequence[ast.stmt], q: str) -> None:
             for st in stmts:
                 if isinstance(st, ast.ClassDef):
+                    for b in st.body:
+                        if isinstance(b, (ast.Assign, ast.AnnAssign)):
+                            for t in (b.targets if isinstance(b, ast.Assign) else [b.target]):
+                                if isinstance(t, ast.Name):
+                                    clsattrs.append("%s:%s%s.%s" % (p.stem, q, st.name, t.id))
                     visit(st.body, q + st.name + ".")
                 elif isinstance(st, ast.FunctionDef):
                     funcs.append("%s:%s%s" % (p.stem, q, st.name))
+                    if _is_generator(st):
+                        gens.append("%s:%s%s" % (p.stem, q, st.name))
                     a = st.args
                     params["%s:%s%s" % (p.stem, q, st.name)] = [x.arg for x in a.posonlyargs + a.args + a.kwonlyargs]
                     visit(st.body, q + st.name + ".")
@@ -2330,7 +2587,7 @@ def gen_vocab(root: Path) -> Dict[str, object]:
     return {"comment": "vocabulary of the pinned tree: function names that are not private helpers "
                        "to be inlined, and how many arguments each callee is passed positionally",
             "functions": sorted(set(funcs)), "module_names": sorted(set(modnames)), "params": params,
-            "call_style": dict(sorted(style.items()))}
+            "generators": sorted(set(gens)), "class_attrs": sorted(set(clsattrs)), "call_style": dict(sorted(style.items()))}
 
 
 def main() -> int:
